@@ -38,7 +38,14 @@ func readGsubSubtable(p *parser.Parser, pos int64, meta *LookupMetaInfo) (Subtab
 		return nil, err
 	}
 
-	reader, ok := gsubReaders[10*meta.LookupType+format]
+	// The key 10*type+format is only unique for one-digit formats (and
+	// must not wrap around): e.g. format 11 in a type 6 lookup would
+	// otherwise be read as an extension subtable (7.1).
+	var reader func(p *parser.Parser, pos int64) (Subtable, error)
+	ok := false
+	if format < 10 && meta.LookupType < 1000 {
+		reader, ok = gsubReaders[10*meta.LookupType+format]
+	}
 	if !ok {
 		return nil, &parser.InvalidFontError{
 			SubSystem: "sfnt/opentype/gtab",
